@@ -275,7 +275,10 @@ class Interp(object):
                 else:
                     self.native_guarded(init, [obj] + list(args), kwargs)
             elif init is not object.__init__ and not isinstance(obj, tuple):
-                self.native_guarded(init, [obj] + list(args), kwargs)
+                if isinstance(obj, BaseException):
+                    self.native(init, [obj] + list(args), kwargs)      # merely stores its arguments
+                else:
+                    self.native_guarded(init, [obj] + list(args), kwargs)
         return obj
 
     def call_function(self, func, args, kwargs):
@@ -862,7 +865,11 @@ class Interp(object):
         return self.eval_seq(e.elts, frame)
 
     def e_Set(self, e, frame):
-        return set(self.eval_seq(e.elts, frame))
+        elems = self.eval_seq(e.elts, frame)
+        if any(is_symbolic(x) for x in elems):
+            from .values import SymSet
+            return SymSet(elems)
+        return set(elems)
 
     def eval_seq(self, elts, frame):
         out = []
@@ -1036,7 +1043,7 @@ class Interp(object):
         if is_symbolic(container):
             raise Unsupported('membership in a symbolic container')
         if isinstance(container, (set, frozenset, dict, list, tuple)) or type(container).__name__ in (
-                'dict_keys', 'dict_values', 'odict_keys', 'deque'):
+                'dict_keys', 'dict_values', 'odict_keys', 'deque', 'SymSet'):
             elems = list(container)
             if is_symbolic(x) or _deep_symbolic(elems):
                 acc = False
